@@ -3,6 +3,7 @@ import Driver.Ops.Update
 import Driver.Ops.Flow
 import Driver.Ops.Tensors
 import Driver.Ops.Drex
+import Driver.Ops.Solver
 import Driver.Ops.Discrete
 import Driver.Ops.Diag
 import Driver.Ops.Scsv
@@ -18,6 +19,7 @@ def handlers : List (List String → Option String) := [
   Ops.Diag.handle,
   Ops.Update.handle,
   Ops.Drex.handle,
+  Ops.Solver.handle,
   Ops.Discrete.handle
 ]
 
